@@ -87,6 +87,39 @@ func purityOracle(p *core.Prog, scope []string) func(fn *ssa.Function) bool {
 	}
 }
 
+// borrowRules runs another check's rule group and keeps only the obligations of the named rules.
+func borrowRules(c *Ctx, rules []string, run func(*Ctx)) {
+	old := c.R.Filter
+	set := map[string]bool{}
+	for _, r := range rules {
+		set[r] = true
+	}
+	c.R.Filter = func(r string) bool { return set[r] && (old == nil || old(r)) }
+	run(c)
+	c.R.Filter = old
+}
+
+// matchReadOnly: the effect analysis of Match and MatchFrom (no write to memory reachable from the classifier, a
+// package-level variable or the input), reported under the given rule. Returns Match and its explorer.
+func matchReadOnly(c *Ctx, p *core.Prog, rule string) (*ssa.Function, *eng.Explorer) {
+	var matchFn *ssa.Function
+	var matchExplorer *eng.Explorer
+	total := 0
+	for _, name := range []string{"(*Classifier).Match", "(*Classifier).MatchFrom"} {
+		fn := p.Func(v2pkg, name)
+		if !c.R.Anchor(fn != nil, "v2."+name) {
+			continue
+		}
+		e := runEffects(c, p, rule, effectRoot{fn: fn, name: name, params: provParams(fn, eng.Shared, eng.Input)}, matchScope, false)
+		total += len(e.Explored())
+		if name == "(*Classifier).Match" {
+			matchFn, matchExplorer = fn, e
+		}
+	}
+	c.R.RequireMin(rule, "functions explored from Match+MatchFrom", total, 40)
+	return matchFn, matchExplorer
+}
+
 func runC04(c *Ctx) {
 	p := c.Prog("v2")
 	if p == nil {
@@ -120,6 +153,31 @@ func runC04(c *Ctx) {
 	checkNondet(c, p, matchExplorer)
 
 	// ---- R04.4: map-order determinism ----------------------------------------------
+	checkMapOrder(c, p, matchFn, explored)
+
+	// ---- R04.3: tracing non-interference --------------------------------------------
+	checkTraceNonInterference(c, p, explored)
+
+	// ---- R04.6: token ids through equality only --------------------------------------
+	checkTokenIDUses(c, p)
+
+	// ---- R04.7: lossy interning of target words ---------------------------------------
+	checkLossyInterning(c, p, matchExplorer)
+
+	// ---- R04.8: adding a document does not depend on what is already in the corpus -----
+	checkUnconditionalAdd(c, p)
+
+	// ---- R04.9: what the tokenizer found is reported whatever the corpus holds ----------
+	checkNoConstantResults(c, p)
+
+	if c.Tier == "thorough" {
+		vtaCrossCheck(c, p, "R04.1", "(*Classifier).Match", matchFn, matchExplorer, matchScope)
+	}
+}
+
+// checkMapOrder: R04.4. No map iteration order reaches the result of Match: every loop over a map has an
+// order-insensitive body or only fills slices that are totally sorted before their order is observed.
+func checkMapOrder(c *Ctx, p *core.Prog, matchFn *ssa.Function, explored []*ssa.Function) {
 	oa := eng.NewOrderAnalysis(p, explored)
 	oa.Pure = purityOracle(p, matchScope)
 	oa.PureExcept = purityExceptOracle(p, matchScope)
@@ -163,24 +221,6 @@ func runC04(c *Ctx) {
 		c.R.OK("R04.4", "no order-tainted value reaches the result of "+core.ShortFn(matchFn), p.Pos(matchFn.Pos()), "every slice filled under map iteration is totally sorted before its order is observed")
 	}
 
-	// ---- R04.3: tracing non-interference --------------------------------------------
-	checkTraceNonInterference(c, p, explored)
-
-	// ---- R04.6: token ids through equality only --------------------------------------
-	checkTokenIDUses(c, p)
-
-	// ---- R04.7: lossy interning of target words ---------------------------------------
-	checkLossyInterning(c, p, matchExplorer)
-
-	// ---- R04.8: adding a document does not depend on what is already in the corpus -----
-	checkUnconditionalAdd(c, p)
-
-	// ---- R04.9: what the tokenizer found is reported whatever the corpus holds ----------
-	checkNoConstantResults(c, p)
-
-	if c.Tier == "thorough" {
-		vtaCrossCheck(c, p, "R04.1", "(*Classifier).Match", matchFn, matchExplorer, matchScope)
-	}
 }
 
 // checkNoConstantResults: R04.9. The copyright notices and the number of input lines come from the input alone. A
